@@ -84,11 +84,11 @@ theorem sigFromRecord_panics (md5of : Sketch → Bytes) (nm fn path : Bytes) (c 
 theorem loadSig_cons_ne (p : Bytes × Sig) (st : List (Bytes × Sig)) (path : Bytes) (h : p.1 ≠ path) :
     loadSig (p :: st) path = loadSig st path := by
   have : (p.1 == path) = false := by simpa using h
-  simp [loadSig, List.find?_cons, this]
+  simp [loadSig, this]
 
 theorem loadSig_cons_eq (path : Bytes) (sg : Sig) (st : List (Bytes × Sig)) :
     loadSig ((path, sg) :: st) path = some sg := by
-  simp [loadSig, List.find?_cons]
+  simp [loadSig]
 
 /-- what `from_sigs` builds: every record is the record of a sketch of one of the signatures, its
     location is the decimal position of that signature, and the storage has the signature there -/
